@@ -214,6 +214,12 @@ h("kd6_stored_one_call", D + "/kd6_stored.rs", "deflate::verif_kani::kd6_stored"
          "array, flush in {NoFlush, SyncFlush, FullFlush, Finish}; oracle = stored-block reference parser (RFC 1951 3.2.4) in the harness",
   assumptions=["reduced w_size/pending: deflate_stored takes both from the state and never uses MIN_LOOKAHEAD",
                "raw wrapper (wrap = 0): checksums are the subject of other harnesses"])
+h("kd6_stored_resume", D + "/kd6_stored.rs", "deflate::verif_kani::kd6_stored", ["C11", "C06", "C01", "C15"],
+  kernel="KD6", expect_s=500, timeout=3000, weight=3, mem_gb=24,
+  functions=["algorithm::stored::deflate_stored", "read_buf_direct_copy", "read_buf_window", "zng_tr_stored_block", "flush_pending"],
+  bounds="as kd6_stored_one_call, but from the state an earlier Z_NO_FLUSH call leaves behind: 0..=3 symbolic bytes buffered in the window; "
+         "0..=3 new input bytes, output space 1..=18, flush in {NoFlush, SyncFlush, FullFlush, Finish}",
+  assumptions=["reduced w_size/pending", "raw wrapper"])
 # ---------------------------------------------------------------- deflate: KD7 status machine
 RUNSTUB = ["algorithm::run -> contract stub (consumes all input, emits nothing, returns NeedMore/BlockDone/FinishDone by flush)",
            "<[u16]>::fill -> ptr::write_bytes(0) model (head.fill(0) is a 65536-iteration loop under CBMC)"]
@@ -409,6 +415,18 @@ h("kd10_set_dictionary_protocol", E, EP, ["C13", "C05", "C16"], kernel="KD10", e
                "fill_window -> contract stub (consumes the input; window/hash contents are outside this harness)", "<[u16]>::fill -> write_bytes model"])
 
 
+for _sp in (1, 5, 13, 40):
+    h("kd7_gzip_header_space%d" % _sp, D + "/kd7_machine.rs", "deflate::verif_kani::kd7_machine", ["C20", "C05", "C06"], kernel="KD7", expect_s=300, timeout=2400,
+      weight=2, mem_gb=16,
+      functions=["deflate::deflate (gzip header states GZip, Extra, Name, Comment, Hcrc, Busy, trailer)", "flush_bytes", "flush_pending", "gz_header::flags"],
+      bounds="gzip wrapper, all levels, header with symbolic text/time/os/hcrc, extra of 0..=6 symbolic bytes or absent, name <= 7 chars or absent, comment <= 2 chars or absent; "
+             "pending buffer 16 bytes (smaller than the header); first call with %d byte(s) of output room, then 6 per call; Finish until StreamEnd" % _sp,
+      assumptions=RUNSTUB + ["crc32 -> byte-wise fold model for the header CRC (expected value computed with the same function: replay-safe)"])
+
+h("ki8_sync_then_inflate", I + "/ki8_entry.rs", "inflate::verif_kani::ki8_entry", ["C15", "C16"], kernel="KI8", expect_s=60, timeout=900,
+  functions=["inflate::sync", "inflate::inflate", "inflate::reset", "State::dispatch (TypeDo, Stored, CopyBlock, Check, Length, Done)"],
+  bounds="any running totals < 2^40, concrete marker + final stored block with 2 symbolic data bytes", assumptions=STEP_ASSUME)
+
 # =================================================================================================================
 # Tier assignment.  `props` of a harness = every property it is evidence for (all of them run in the thorough tier).
 # QUICK[pid] = the subset run by `./check <pid> --tier quick` (the check one would run on every change): chosen so that
@@ -443,7 +461,7 @@ QUICK = {
     "C14": ["kd10_reset_equals_fresh", "ki8_reset_equals_fresh", "ka2_deflate_copy_alloc_failure", "kd10c_pending_clone_to",
             "kd10c_symbuf_clone_to", "ki8c_window_clone_to"],
     "C15": ["ki7_inflate_copyblock", "ki7_inflate_terminal", "ki5c_copyblock_resume", "ki1_bitreader_refill_model", "ki8_sync",
-            "kd7_zlib_wrapper"],
+            "ki8_sync_then_inflate", "kd7_zlib_wrapper"],
     "C16": ["ki8_small_entry_points", "ki8_sync", "ki8_reset_equals_fresh", "ki5a_set_dictionary", "kd10_prime", "kd10_params_tune",
             "kd10_set_header", "kd10_set_dictionary_protocol", "ki7_inflate_terminal", "ki5e_terminal_modes"],
     "C18": ["ka1_alloc_shim", "ka1_alloc_overflow_and_null", "ka2_deflate_copy_alloc_failure"],
